@@ -241,4 +241,28 @@ theorem polyEvalG_map_smul (ω : List F) (V : G) (x : F) :
     rw [List.map_cons] at h
     rw [List.map_cons, polyEvalG_some, h]; simp
 
+theorem evalG_polyAddG (p q : List G) (x : F) : evalG (polyAddG p q) x = evalG p x + evalG q x := by
+  induction p generalizing q with
+  | nil => simp [polyAddG, evalG]
+  | cons a p ih =>
+    cases q with
+    | nil => simp [polyAddG, evalG]
+    | cons b q =>
+      simp only [polyAddG, evalG, ih, smul_add]
+      module
+
+theorem evalG_map_smul' (k : F) (p : List G) (x : F) : evalG (p.map (k • ·)) x = k • evalG p x := by
+  induction p with
+  | nil => simp [evalG]
+  | cons a p ih => simp only [List.map_cons, evalG, ih, smul_add, smul_smul, mul_comm]
+
+theorem polyAddG_eq_nil (p q : List G) (h : polyAddG p q = []) : p = [] ∧ q = [] := by
+  cases p with
+  | nil => simp [polyAddG] at h; exact ⟨rfl, h⟩
+  | cons a p =>
+    cases q with
+    | nil => simp [polyAddG] at h
+    | cons b q => simp [polyAddG] at h
+
+
 end AC.Vb20
